@@ -160,6 +160,17 @@ class StructInitLevel(InitLevel):
         assert isinstance(initializer, expressions.StructInitializer)
         super().__init__(initializer, implicit)
         self.pos = 0  # TODO: integer pos or field name?
+        self._skip_unnamed_bit_fields()
+
+    def _skip_unnamed_bit_fields(self):
+        """Unnamed bit-fields do not take part in initialization."""
+        fields = self.typ.fields
+        while (
+            self.pos < len(fields)
+            and fields[self.pos].name is None
+            and fields[self.pos].bitsize is not None
+        ):
+            self.pos += 1
 
     def __repr__(self):
         return (
@@ -176,6 +187,7 @@ class StructInitLevel(InitLevel):
 
     def go_next(self):
         self.pos += 1
+        self._skip_unnamed_bit_fields()
 
     def go_to_field(self, field):
         pos = self.typ.fields.index(field)
